@@ -602,7 +602,16 @@ func validateAndSetValue(kind reflect.Kind, value reflect.Value, str string,
 		return err
 	}
 
-	if err := validateValueRange(v, opts); err != nil {
+	rangeValue := v
+	if kind == reflect.Float32 {
+		// the range is declared in decimal, check the number as it is written like a json number is,
+		// not its float32 rounding: float32(0.1) is above 0.1, float32(0.3) is above 0.3.
+		if fv, err := strconv.ParseFloat(str, 64); err == nil {
+			rangeValue = fv
+		}
+	}
+
+	if err := validateValueRange(rangeValue, opts); err != nil {
 		return err
 	}
 
